@@ -26,6 +26,27 @@ use signalo_filters::observe::kalman::{Config as KalmanConfig, Kalman};
 use signalo_traits::{ConfigClone, ConfigRef, Filter, FromGuts, IntoGuts, Reset, WithConfig};
 use std::collections::HashMap;
 
+/// instantiate `$body` with the const generic `$N` bound to the run-time width `$n`
+#[macro_export]
+macro_rules! with_n {
+    ($n:expr, $N:ident => $body:expr) => {
+        match $n {
+            0 => { const $N: usize = 0; $body }
+            1 => { const $N: usize = 1; $body }
+            2 => { const $N: usize = 2; $body }
+            3 => { const $N: usize = 3; $body }
+            4 => { const $N: usize = 4; $body }
+            5 => { const $N: usize = 5; $body }
+            6 => { const $N: usize = 6; $body }
+            7 => { const $N: usize = 7; $body }
+            8 => { const $N: usize = 8; $body }
+            9 => { const $N: usize = 9; $body }
+            16 => { const $N: usize = 16; $body }
+            n => panic!("harness: width {} is not instantiated", n),
+        }
+    };
+}
+
 pub type KV = HashMap<String, String>;
 
 pub fn parse_kv(toks: &[&str]) -> KV {
@@ -394,14 +415,55 @@ where
     }
 }
 
-// ---- construction -----------------------------------------------------------------------
+// ---- float-only filters (bit-pattern protocol) -------------------------------------------
 
-/// instantiate `$body` with the const generic `$N` bound to the run-time width `$n`
-#[macro_export]
-macro_rules! with_n {
+use signalo_filters::convolve::savitzky_golay::SavitzkyGolay;
+use signalo_filters::hampel::{Config as HampelConfig, Hampel};
+use signalo_filters::wavelet::analyze::Analyze;
+use signalo_filters::wavelet::daubechies::Daubechies;
+use signalo_filters::wavelet::synthesize::Synthesize;
+use signalo_filters::wavelet::Decomposition;
+
+macro_rules! fk_bits {
+    ([$($gen:tt)*] $ty:ty, $in:ty, |$s:ident| $cfg:expr) => {
+        impl<$($gen)*> FK for $ty {
+            fn filt(&mut self, a: &[Val]) -> String {
+                let x: $in = FromArgs::from_args(a);
+                Filter::filter(self, x).bits()
+            }
+            fn rst(self) -> Self {
+                Reset::reset(self)
+            }
+            fn gutsrt_(&self) -> Self {
+                FromGuts::from_guts(IntoGuts::into_guts(self.clone()))
+            }
+            fn cfg_(&self) -> String {
+                let $s = self;
+                $cfg
+            }
+        }
+    };
+}
+macro_rules! float_kinds {
+    ($t:ty) => {
+        fk_bits!([const N: usize] Hampel<$t, N>, $t, |s| s.config().threshold.bits());
+        fk_bits!([const N: usize] Convolve<$t, N>, $t, |s| bits_list(s.config_ref().coefficients.iter()));
+        fk_bits!([const N: usize] Analyze<$t, N>, $t, |s| {
+            let c = s.config();
+            format!("{} | {}", bits_list(c.low_pass.coefficients.iter()), bits_list(c.high_pass.coefficients.iter()))
+        });
+        fk_bits!([const N: usize] Synthesize<$t, N>, Decomposition<$t>, |s| {
+            let c = s.config();
+            format!("{} | {}", bits_list(c.low_pass.coefficients.iter()), bits_list(c.high_pass.coefficients.iter()))
+        });
+    };
+}
+float_kinds!(f64);
+float_kinds!(f32);
+
+macro_rules! with_w {
     ($n:expr, $N:ident => $body:expr) => {
         match $n {
-            0 => { const $N: usize = 0; $body }
             1 => { const $N: usize = 1; $body }
             2 => { const $N: usize = 2; $body }
             3 => { const $N: usize = 3; $body }
@@ -411,11 +473,55 @@ macro_rules! with_n {
             7 => { const $N: usize = 7; $body }
             8 => { const $N: usize = 8; $body }
             9 => { const $N: usize = 9; $body }
-            16 => { const $N: usize = 16; $body }
-            n => panic!("harness: width {} is not instantiated", n),
+            10 => { const $N: usize = 10; $body }
+            11 => { const $N: usize = 11; $body }
+            12 => { const $N: usize = 12; $body }
+            13 => { const $N: usize = 13; $body }
+            n => panic!("harness: no Savitzky-Golay preset of width {}", n),
         }
     };
 }
+macro_rules! with_order {
+    ($n:expr, $N:ident => $body:expr) => {
+        match $n {
+            2 => { const $N: usize = 2; $body }
+            4 => { const $N: usize = 4; $body }
+            6 => { const $N: usize = 6; $body }
+            8 => { const $N: usize = 8; $body }
+            10 => { const $N: usize = 10; $body }
+            12 => { const $N: usize = 12; $body }
+            14 => { const $N: usize = 14; $body }
+            16 => { const $N: usize = 16; $body }
+            18 => { const $N: usize = 18; $body }
+            20 => { const $N: usize = 20; $body }
+            n => panic!("harness: no Daubechies preset of order {}", n),
+        }
+    };
+}
+
+macro_rules! build_float_kind {
+    ($t:ty, $kind:expr, $kv:expr) => {
+        match $kind {
+            "hampel" => Some(with_n!(kv_n($kv, "N"), N => Box::new(Hampel::<$t, N>::with_config(HampelConfig {
+                threshold: <$t>::from_val(parse_val(kv_str($kv, "thr"))),
+            })) as Box<dyn Inst>)),
+            "sg" => Some(with_w!(kv_n($kv, "W"), N => Box::new(Convolve::<$t, N>::savitzky_golay()) as Box<dyn Inst>)),
+            "daub_analyze" => Some(with_order!(kv_n($kv, "O"), N => Box::new(Analyze::<$t, N>::daubechies()) as Box<dyn Inst>)),
+            "daub_synth" => Some(with_order!(kv_n($kv, "O"), N => Box::new(Synthesize::<$t, N>::daubechies()) as Box<dyn Inst>)),
+            _ => None,
+        }
+    };
+}
+
+fn build_float(kind: &str, kv: &KV) -> Option<Box<dyn Inst>> {
+    match kv.get("T").map(|s| s.as_str()) {
+        Some("f64") => build_float_kind!(f64, kind, kv),
+        Some("f32") => build_float_kind!(f32, kind, kv),
+        _ => None,
+    }
+}
+
+// ---- construction -----------------------------------------------------------------------
 
 /// wrap (or not) and box
 fn finish<K>(k: K, wrap: Option<&str>) -> Box<dyn Inst>
@@ -434,6 +540,9 @@ pub fn widths() -> &'static [usize] {
 }
 
 pub fn build(kind: &str, kv: &KV) -> Box<dyn Inst> {
+    if let Some(b) = build_float(kind, kv) {
+        return b;
+    }
     if kind == "cache" {
         let inner = kv_str(kv, "inner").to_string();
         return build_inner(&inner, kv, Some("cache"));
